@@ -61,3 +61,25 @@ CHECKS.append({
 })
 _claimed = {c["id"] for c in CHECKS} | {"C16"}
 NOT_APPLICABLE[:] = [n for n in NOT_APPLICABLE if n["property_id"] not in {c["id"] for c in CHECKS}]
+RUNNERS["C07"] = ("history_check", "main", ())
+RUNNERS["C13"] = ("timer_check", "main", ())
+RUNNERS["C15"] = ("lcd_check", "main", ())
+CHECKS.append({
+    "id": "C07", "engine": "pysym", "level": "exploration", "design_ref": "DESIGN.md section 4 / C07",
+    "technique": "2-run non-interference decided by z3: every instruction class executed with TEMP registers, call bookkeeping and trace PCs as fresh symbolic variables; self-composition by substitution; plus process-history, re-execution and stepper-vs-in-place equalities",
+    "level_text": "Every (prefix, opcode, length) class of the Python core is executed symbolically with all hidden state (TEMP0-13, call_sub_level, _last_pc/_current_pc) as free variables; z3 decides that no two hidden-state valuations give different architectural post-states (or the variables are shown not to occur at all). Decoder templates / caches are covered by executing Y after an unrelated X in the same process and by re-executing at the same address after the operand bytes changed; CPUStepper.step is compared with in-place execution. Python core only; the Rust half is outside this revision's claim.",
+    "level_note": _PY_NOTE,
+})
+CHECKS.append({
+    "id": "C13", "engine": "pysym", "level": "other", "design_ref": "DESIGN.md section 4 / C13",
+    "technique": "inductive step decided by z3: one symbolic TimerScheduler.advance/reset call from an arbitrary symbolic scheduler state (periods, targets, cycle counter), catch-up loop unwound K times under an unwinding assumption",
+    "level_text": "z3 decides for all periods, targets and cycle values within the bounds that a timer fires iff enabled, period>0 and due; that the next target is strictly in the future, at most one period ahead and phase-preserving (so per-cycle ticking fires exactly once per boundary); disabled/zero-period timers never fire. Python scheduler only in this revision.",
+    "level_note": _PY_NOTE,
+})
+CHECKS.append({
+    "id": "C15", "engine": "pysym", "level": "other", "design_ref": "DESIGN.md section 4 / C15",
+    "technique": "inductive step decided by z3: one symbolic read/write through the real HD61202Controller from an arbitrary two-chip state (VRAM as z3 arrays) compared with a z3 protocol spec; all 7680 display pixels compared with their VRAM bit over fully symbolic VRAM",
+    "level_text": "z3 decides, for all addresses (both windows, every low-nibble decoding, addresses outside) and values, that chip state, VRAM and returned status/data equal the HD61202 protocol spec after one operation from an arbitrary state (plus fixed-shape 3-operation sequences for busy/read latency), and that each of the 240x32 pixels of get_display_buffer equals NOT(one VRAM bit) AND chip-on, the map being injective and column-local. Python model only in this revision; PIL image rendering (render_combined_image) crosses a C boundary and is outside.",
+    "level_note": _PY_NOTE,
+})
+NOT_APPLICABLE[:] = [n for n in NOT_APPLICABLE if n["property_id"] not in {c["id"] for c in CHECKS}]
